@@ -364,6 +364,53 @@ theorem remove_countInv {G : Nat → Nat} {c : Cuckoo} (h : Nat) (hw : WF G c) (
       exact CountInv_erase hw hi hm0 rfl ⟨rfl, rfl, rfl, rfl, rfl, rfl, rfl⟩ rfl rfl
         (by simp only [hcf]; rfl) hc
 
+/-! ### by how much `add` / `remove` move `elements_added` -/
+
+theorem tsum_add (f g : CBin → Nat) (c : Cuckoo) : tsum (fun b => f b + g b) c = tsum f c + tsum g c := by
+  rw [tsum_eq_flatten, tsum_eq_flatten, tsum_eq_flatten, bsum_add]
+
+/-- the count of a bin whose fingerprint is not `fp` -/
+def offFp (fp : Nat) : CBin → Nat := fun b => if b.1 = fp then 0 else b.2
+
+theorem wCnt_split (fp : Nat) (c : Cuckoo) : tsum wCnt c = tsum (cntW fp) c + tsum (offFp fp) c := by
+  rw [← tsum_add]
+  have : wCnt = fun b => cntW fp b + offFp fp b := by
+    funext b
+    simp only [cntW, offFp]
+    split <;> simp
+  rw [this]
+
+/-- an `add` that returns normally raises `elements_added` by one — for the plain filter only if
+    the fingerprint was not there yet (`check` reported 0) -/
+theorem add_count_delta {G : Nat → Nat} {c : Cuckoo} (h : Nat) (o : List Nat) (hw : WF G c) (hc : CountInv c)
+    (hok : (add G c h o).2.1 = none) :
+    (add G c h o).1.count = c.count + (if c.counting then 1 else 1 - (check G c h : Int)) := by
+  have hc' := add_countInv h o hw hc
+  have hchk := check_eq_cnt hw h
+  rcases add_spec h o hw with ⟨_, _, _, _, hoff, hcnt, _⟩ | ⟨he, _⟩
+  · have h1 := hoff (offFp (c.fingerprint h)) (by intro b hb; simp [offFp, hb])
+    have s1 := wCnt_split (c.fingerprint h) (add G c h o).1
+    have s2 := wCnt_split (c.fingerprint h) c
+    have e1 := hc'.1
+    have e2 := hc.1
+    by_cases hcount : c.counting = true
+    · rw [if_pos hcount] at hcnt ⊢; omega
+    · rw [if_neg hcount] at hcnt ⊢; omega
+  · rw [hok] at he; simp at he
+
+/-- a `remove` that returns `True` lowers `elements_added` by exactly one -/
+theorem remove_count_delta {G : Nat → Nat} {c : Cuckoo} (h : Nat) (hw : WF G c) (hc : CountInv c)
+    (hret : (remove G c h).2 = true) : (remove G c h).1.count = c.count - 1 := by
+  have hc' := remove_countInv h hw hc
+  rcases remove_spec h hw with ⟨_, _, _, _, hoff, hcnt, _⟩ | ⟨hf, _⟩
+  · have h1 := hoff (offFp (c.fingerprint h)) (by intro b hb; simp [offFp, hb])
+    have s1 := wCnt_split (c.fingerprint h) (remove G c h).1
+    have s2 := wCnt_split (c.fingerprint h) c
+    have e1 := hc'.1
+    have e2 := hc.1
+    omega
+  · rw [hret] at hf; simp at hf
+
 /-! ### `load` recounts -/
 
 theorem load_countInv (template : Cuckoo) (file : Bytes) (c : Cuckoo) (h : load template file = .ok c) :
